@@ -154,6 +154,11 @@ type dgram struct {
 	// NTS verdicts for b, computed by the harness with the real libraries, independently of the
 	// client: nts.DecodePacket ok / unique id equals the request's / AEAD opens under the S2C key
 	ntsDec, ntsUID, ntsOpen bool
+	// SCION packet authenticator (SPAO), by the harness's own reading of the bytes it sends and
+	// its own MAC computation under the key the fake daemon hands out: an authenticator option
+	// with the time-service server SPI and algorithm is present and its MAC does not verify /
+	// verifies; authMalformed: the option's data length is not 28
+	authInvalid, authValid, authMalformed bool
 }
 
 type peer struct {
@@ -279,6 +284,7 @@ type exchCfg struct {
 	setNow   func(prev client.VerifC03Prev) []time.Time // scripted clock readings (optional)
 	nts      bool // client with NTS enabled (key exchange data preloaded through the ntske hook)
 	spao     bool // SCION: Auth.Enabled with a DRKey fetcher that has no daemon (no key becomes available)
+	spaoKey  bool // SCION: Auth.Enabled with a DRKey fetcher on a fake daemon connector: the host-host key is available
 }
 
 // script decides, after seeing the request, which datagrams go back in which order.
@@ -432,13 +438,13 @@ func ipExchange(c *lib.Ctx, ipc *client.IPClient, cfg exchCfg, sc script) exchRe
 
 func exchange(c *lib.Ctx, lc liveClient, cfg exchCfg, sc script) (res exchResult) {
 	p := thePeer
-	res.tr, res.hdr = lc.transport()
 	if cfg.filter {
 		res.filter = &recFilter{value: 424242}
 		lc.configure(cfg, res.filter)
 	} else {
 		lc.configure(cfg, nil)
 	}
+	res.tr, res.hdr = lc.transport()
 	if cfg.setPrev != nil {
 		lc.setPrev(*cfg.setPrev)
 	}
@@ -575,20 +581,42 @@ func goClockOffset(t0, t1, t2, t3 int64) (int64, int64) {
 }
 
 // acceptable: the conditions of property C05 evaluated on the bytes the peer crafted.
-func acceptable(p *peer, d dgram, ri reqInfo, prevSRx ntp.Time64, ref int64, ntsOn bool) bool {
-	if ntsOn && !(d.ntsDec && d.ntsUID && d.ntsOpen) {
+func acceptable(p *peer, d dgram, ri reqInfo, prevSRx ntp.Time64, ref int64, cfg exchCfg) bool {
+	if cfg.nts && !(d.ntsDec && d.ntsUID && d.ntsOpen) {
 		return false
 	}
-	return acceptableButNTS(p, d, ri, prevSRx, ref, ntsOn)
+	return acceptableButNTS(p, d, ri, prevSRx, ref, cfg)
+}
+
+// reachesNTP: the datagram passes every check in front of the NTP stage (source address and
+// buffer size for IP; SCION/UDP structure and addresses for SCION) — by the harness's own
+// reading of what it sent. The SCION packet authenticator is not part of this.
+func reachesNTP(p *peer, d dgram, ntsOn bool) bool {
+	if d.wire == nil {
+		return p.srcNum(d.src) == p.srcNum(srcServer) && len(d.b) >= 48 && (ntsOn || len(d.b) == 48) &&
+			len(d.b) <= nts.MaxPacketLen
+	}
+	return d.pathOK && len(d.b) >= 48
+}
+
+// echoes: C05's origin clause — the datagram echoes the outstanding request's transmit
+// timestamp or, only when the request was an interleaved one, its receive timestamp.
+func echoes(d dgram, ri reqInfo) (basic, interleaved bool) {
+	if len(d.b) < 48 {
+		return false, false
+	}
+	org := be64(d.b[24:])
+	return org == ri.tx, ri.interleavedRq && org == ri.rx
 }
 
 // acceptableButNTS: every condition of the property except the NTS clause.
-func acceptableButNTS(p *peer, d dgram, ri reqInfo, prevSRx ntp.Time64, ref int64, ntsOn bool) bool {
-	if d.wire == nil && (p.srcNum(d.src) != p.srcNum(srcServer) || len(d.b) < 48 || !ntsOn && len(d.b) != 48 ||
-		len(d.b) > nts.MaxPacketLen) {
+func acceptableButNTS(p *peer, d dgram, ri reqInfo, prevSRx ntp.Time64, ref int64, cfg exchCfg) bool {
+	if !reachesNTP(p, d, cfg.nts) {
 		return false
 	}
-	if d.wire != nil && (!d.pathOK || len(d.b) < 48) {
+	if cfg.spaoKey && (d.authInvalid || d.authMalformed) {
+		// C13, client side: with a key available a time-service authenticator that does not
+		// verify disqualifies the datagram (a malformed one is C08's business: never accepted either)
 		return false
 	}
 	org, rx, tx := be64(d.b[24:]), be64(d.b[32:]), be64(d.b[40:])
@@ -604,6 +632,72 @@ func acceptableButNTS(p *peer, d dgram, ri reqInfo, prevSRx ntp.Time64, ref int6
 		return false
 	}
 	return dec64(tx, ref) >= dec64(rx, ref)
+}
+
+// usedCand: datagram idx of the delivered sequence explains the client's result when read as
+// a basic (il=false) or as an interleaved (il=true) response.
+type usedCand struct {
+	idx int
+	il  bool
+}
+
+// explain lists every (datagram, reading) that reproduces what the client returned — the
+// receive stamp that went into prev (interleaved mode on; the peer tags each datagram's
+// stamp), the tuple handed to the filter, or the returned offset — from the bytes the peer
+// sent and the client state before the exchange only. It does not look at origin timestamps
+// or authenticators: those are what the oracles then judge.
+func explain(p *peer, cfg exchCfg, res exchResult) (cands []usedCand) {
+	ref := res.now0
+	cRx := res.ts.UnixNano()
+	for i, d := range res.sent {
+		if !reachesNTP(p, d, cfg.nts) {
+			continue
+		}
+		rx, tx := be64(d.b[32:]), be64(d.b[40:])
+		if cfg.il && res.prev1.SRxTime != rx {
+			continue
+		}
+		for _, il := range []bool{false, true} {
+			if cfg.il && res.prev1.Interleaved != il {
+				continue
+			}
+			var t [4]int64
+			if il {
+				t = [4]int64{dec64(res.prev0.CTxTime, ref), dec64(res.prev0.SRxTime, ref), dec64(tx, ref), dec64(res.prev0.CRxTime, ref)}
+			} else {
+				t = [4]int64{0, dec64(rx, ref), dec64(tx, ref), cRx}
+			}
+			ok := false
+			switch {
+			case cfg.filter && res.filter != nil && res.filter.got:
+				ok = true
+				for k := 0; k < 4; k++ {
+					if (k > 0 || il) && res.filter.t[k].UnixNano() != t[k] {
+						ok = false
+					}
+				}
+			case il:
+				o, _ := goClockOffset(t[0], t[1], t[2], t[3])
+				ok = o == int64(res.off)
+			default:
+				// offset = ((t1-t0)+(t2-t3))/2 for a transmit time t0 inside the exchange
+				lo, hi := res.now0-1, res.ri.R
+				if cfg.setNow != nil {
+					lo, hi = res.ri.R-10*nsps, res.ri.R
+				}
+				base := t[1] + t[2] - t[3] - 2*int64(res.off)
+				for _, dlt := range []int64{0, -1, 1} {
+					if o, _ := goClockOffset(base+dlt, t[1], t[2], t[3]); o == int64(res.off) && base+dlt >= lo && base+dlt <= hi {
+						ok = true
+					}
+				}
+			}
+			if ok {
+				cands = append(cands, usedCand{i, il})
+			}
+		}
+	}
+	return
 }
 
 // record emits the two op lines of an exchange and evaluates the direct oracles.
@@ -637,14 +731,14 @@ func recordIP(c *lib.Ctx, tag string, cfg exchCfg, res exchResult) int {
 		cRx := res.ts.UnixNano()
 		// which datagram? the one whose receive field went into prev (il on) / the filter tuple / the first acceptable
 		for i, d := range res.sent {
-			if acceptable(p, d, res.ri, res.prev0.SRxTime, res.now0, cfg.nts) {
+			if acceptable(p, d, res.ri, res.prev0.SRxTime, res.now0, cfg) {
 				idx = i
 				break
 			}
 		}
 		if idx < 0 && cfg.nts {
 			for _, d := range res.sent {
-				if acceptableButNTS(p, d, res.ri, res.prev0.SRxTime, res.now0, true) {
+				if acceptableButNTS(p, d, res.ri, res.prev0.SRxTime, res.now0, cfg) {
 					c.Fail("C05:nts:offset-from-unauthenticated-datagram",
 						"an NTS-enabled client reported a measurement although no datagram carried the request's unique identifier and verified under the S2C key",
 						[]string{opReq}, map[string]any{"sent": len(res.sent), "offset": int64(res.off),
@@ -820,6 +914,41 @@ func recordIP(c *lib.Ctx, tag string, cfg exchCfg, res exchResult) int {
 		}
 	}
 	c.Emit(op, ans)
+	// direct oracles on the datagram the result stems from (C05 origin clause, C13 client clause):
+	// every (datagram, reading) of the delivered sequence that reproduces the returned result is
+	// judged by the property's own predicate on the bytes the peer sent
+	if accepted {
+		if cands := explain(p, cfg, res); len(cands) > 0 {
+			echoOK, authOK := false, false
+			var descr []string
+			for _, u := range cands {
+				d := res.sent[u.idx]
+				b, il := echoes(d, res.ri)
+				if !u.il && b || u.il && il {
+					echoOK = true
+				}
+				if !(cfg.spaoKey && d.authInvalid) {
+					authOK = true
+				}
+				descr = append(descr, fmt.Sprintf("datagram %d read as interleaved=%v: origin=%s auth-invalid=%v", u.idx, u.il, f64(be64(d.b[24:])), d.authInvalid))
+			}
+			detail := map[string]any{"used": descr, "request_interleaved": res.ri.interleavedRq, "request_tx": f64(res.ri.tx),
+				"request_rx": f64(res.ri.rx), "offset": int64(res.off), "key_available": cfg.spaoKey}
+			if !echoOK {
+				c.Fail("C05:accepted-response-does-not-echo-request",
+					"the client took its measurement from a datagram whose origin timestamp is neither the outstanding request's transmit timestamp nor (request interleaved, response evaluated as interleaved) its receive timestamp",
+					[]string{opReq, op}, detail)
+			}
+			if !authOK {
+				c.Fail("C13:client:accepted-response-with-invalid-authenticator",
+					"a client with DRKey authentication enabled and the host-host key available took its measurement from a response whose time-service packet authenticator (server SPI, AES-CMAC) does not verify",
+					[]string{opReq, op}, detail)
+			}
+			c.Count(tag + ":oracle:used-datagram-identified")
+		} else {
+			c.Count(tag + ":oracle:used-datagram-not-identified")
+		}
+	}
 	// direct oracle (C08): no datagram may terminate the client (panics provoked through the
 	// prev hook are not network input)
 	if res.panicked != "" && cfg.setPrev == nil {
